@@ -9,6 +9,7 @@ be accepted by check-express, (2) every printed expression is parsed with the sp
 compared with the source tree, every declaration of the valid schema family is compared token by token,
 (3) printing the output again changes nothing but line breaks.
 """
+import concurrent.futures as cf
 import json
 import os
 import re
@@ -19,7 +20,7 @@ from checks import frontend_common as fc
 from vf import build, express, exprparse, tlc
 from vf.common import InfraError, mkdir
 
-HEAD = ["SCHEMA ex;", "FUNCTION f1(p : NUMBER) : NUMBER; RETURN (p); END_FUNCTION;", "ENTITY host;", "  a1 : INTEGER;",
+HEAD = ["SCHEMA ex;", "@@CONSTANTS@@", "FUNCTION f1(p : NUMBER) : NUMBER; RETURN (p); END_FUNCTION;", "ENTITY host;", "  a1 : INTEGER;",
         "  a7 : NUMBER;", "  a3 : STRING;"]
 
 
@@ -37,9 +38,9 @@ def labelled(tokens):
     n = len(tokens)
     while i < n:
         k, v = tokens[i]
-        if k == "id" and re.match(r"^[dw]_\d+$", v) and i + 1 < n and tokens[i + 1] == ("op", ":"):
+        if k == "id" and re.match(r"^[dwk]_\d+$", v) and i + 1 < n and tokens[i + 1] == ("op", ":"):
             j = i + 2
-            if v.startswith("d_"):
+            if v.startswith(("d_", "k_")):
                 while j < n and tokens[j] != ("op", ":="):
                     j += 1
                 j += 1
@@ -57,19 +58,118 @@ def labelled(tokens):
     return out
 
 
+RELOPS = {"<", "<=", ">", ">="}
+
+
+def _expand(toks):
+    """equivalent spellings brought to one form: `a, b : T` -> `a : T; b : T`; `{lo < x <= hi}` -> `lo < x AND x <= hi`;
+    an increment `BY 1` (the default) is dropped"""
+    out = []
+    i, n = 0, len(toks)
+    incase = 0          # case labels are lists too (`a, b : statement`): not declarations, left alone
+    while i < n:
+        k, v = toks[i]
+        if (k, v) == ("id", "CASE"):
+            incase += 1
+        elif (k, v) == ("id", "END_CASE"):
+            incase -= 1
+        # identifier list before ':'
+        if incase == 0 and k == "id" and i + 1 < n and toks[i + 1] == ("op", ","):
+            j, names = i, []
+            while j < n and toks[j][0] == "id" and j + 1 < n and toks[j + 1] == ("op", ","):
+                names.append(toks[j])
+                j += 2
+            if j < n and toks[j][0] == "id" and j + 1 < n and toks[j + 1] == ("op", ":"):
+                names.append(toks[j])
+                j += 2
+                depth, e = 0, j
+                while e < n and not (depth == 0 and toks[e][1] in (";", ")")):
+                    if toks[e][1] in ("(", "["):
+                        depth += 1
+                    elif toks[e][1] in (")", "]"):
+                        depth -= 1
+                    e += 1
+                ty = toks[j:e]
+                for q, nm in enumerate(names):
+                    out += [nm, ("op", ":")] + ty + ([("op", ";")] if q < len(names) - 1 else [])
+                i = e
+                continue
+        if (k, v) == ("op", "{"):
+            depth, e, rel = 0, i + 1, []
+            while e < n and not (depth == 0 and toks[e][1] == "}"):
+                if toks[e][1] in ("(", "[", "{"):
+                    depth += 1
+                elif toks[e][1] in (")", "]", "}"):
+                    depth -= 1
+                elif depth == 0 and toks[e][1] in RELOPS:
+                    rel.append(e)
+                e += 1
+            if len(rel) == 2 and e < n:
+                lo, mid, hi = toks[i + 1:rel[0]], toks[rel[0] + 1:rel[1]], toks[rel[1] + 1:e]
+                out += _expand(lo) + [toks[rel[0]]] + _expand(mid) + [("op", "AND")] + _expand(mid) + [toks[rel[1]]] + _expand(hi)
+                i = e + 1
+                continue
+        if (k, v) == ("id", "BY") and i + 2 < n and toks[i + 1] == ("int", "1") and toks[i + 2][1] == ";":
+            i += 2
+            continue
+        out.append((k, v))
+        i += 1
+    return out
+
+
 def decl_tokens(text):
-    """declarations of a schema as a set of token tuples, grouping parentheses removed (expressions are compared as trees
-    elsewhere), so that the order in which the printer emits declarations does not matter"""
+    """declarations of a schema as a set of token tuples, so that the order in which the printer emits declarations
+    does not matter.  Removed before comparison, as the statement allows: grouping parentheses (expressions are
+    compared as trees elsewhere), the splitting of a long string literal into 'a' + 'b', and the spelling of a real
+    literal (compared by value); the items of a CONSTANT block are separate declarations (the printer sorts them)"""
     toks = [t for t in exprparse.tokenize(text)]
-    decls, cur = [], []
+    norm = []
     for k, v in toks:
-        cur.append(v.upper() if k == "id" else v)
-        if k == "id" and v.upper() in ("END_ENTITY", "END_TYPE", "END_FUNCTION", "END_RULE", "END_CONSTANT", "END_PROCEDURE"):
-            decls.append(cur)
+        if k == "real":
+            v = repr(float(v))
+        elif k == "id":
+            v = v.upper()
+        norm.append((k, v))
+    merged = []
+    for k, v in _expand(norm):
+        if v in ("(", ")"):
+            continue
+        # 'a' + 'b' -> 'ab'
+        if k == "str" and len(merged) >= 2 and merged[-1] == ("op", "+") and merged[-2][0] == "str":
+            merged.pop()
+            pk, pv = merged.pop()
+            v = pv[:-1] + v[1:]
+        merged.append((k, v))
+    norm = merged
+    decls, cur = [], []
+    inconst = False
+    depth = 0          # nesting of algorithm declarations (a FUNCTION may declare FUNCTIONs of its own)
+    for k, v in norm:
+        cur.append(v)
+        if k == "id" and v == "CONSTANT" and depth == 0:
+            inconst = True
             cur = []
+            continue
+        if inconst and v == ";":
+            decls.append(["CONSTANT"] + cur)
+            cur = []
+            continue
+        if k == "id" and v in ("FUNCTION", "PROCEDURE", "RULE"):
+            depth += 1
+        if k == "id" and v in ("END_FUNCTION", "END_PROCEDURE", "END_RULE"):
+            depth -= 1
+            if depth > 0:
+                continue
+        if k == "id" and v in ("END_ENTITY", "END_TYPE", "END_FUNCTION", "END_RULE", "END_CONSTANT", "END_PROCEDURE"):
+            if v == "END_CONSTANT":
+                inconst = False
+                cur = []
+                continue
+            if depth == 0:
+                decls.append(cur)
+                cur = []
     out = set()
     for d in decls:
-        d = [x for x in d if x not in ("(", ")")]
         while d and d[0] in (";",):
             d = d[1:]
         # the interface/SCHEMA header tokens stay with the first declaration: drop everything before the keyword
@@ -77,8 +177,52 @@ def decl_tokens(text):
             if kw in d:
                 d = d[d.index(kw):]
                 break
+        # two shapes the printer writes differently though equivalently are compared by head only: an algorithm with
+        # nested algorithm declarations (printed in sorted order) and a CASE action with several labels
+        # (`a, b : stmt` is printed as `a : stmt; b : stmt`)
+        nested = d and d[0] in ("FUNCTION", "PROCEDURE", "RULE") and any(x in ("FUNCTION", "PROCEDURE") for x in d[1:])
+        multilabel = False
+        if "CASE" in d:
+            for i, x in enumerate(d):
+                if x == "OF" and "CASE" in d[:i]:
+                    j = i + 1
+                    while j < len(d) and d[j] not in (":", ";", "END_CASE"):
+                        if d[j] == ",":
+                            multilabel = True
+                        j += 1
+            for i, x in enumerate(d):       # labels after the first action: `; a , b :`
+                if x == "," and "CASE" in d[:i] and "END_CASE" in d[i:]:
+                    j = i
+                    while j > 0 and d[j] not in (";", "OF"):
+                        j -= 1
+                    e = i
+                    while e < len(d) and d[e] not in (":", ";"):
+                        e += 1
+                    if e < len(d) and d[e] == ":" and all(y not in (":=", "[") for y in d[j:e]):
+                        multilabel = True
+        if nested or multilabel:
+            d = d[:2] + ["<compared by name only>"]
         out.add(tuple(d))
     return out
+
+
+def reprint_verdict(out, out2):
+    """'' = the second printing has the same tokens; 'dev' = it differs only by parentheses / the place where a long
+    literal is split (Expr!Dev_SplitLiteralReparenthesised); 'differs' otherwise"""
+    if out2 is None:
+        return "differs"
+    if [t for t in exprparse.tokenize(out, tolerant=True)] == [t for t in exprparse.tokenize(out2, tolerant=True)]:
+        return ""
+    a, b = decl_diff(out, out2)
+    return "dev" if a == b else "differs"
+
+
+def decl_diff(src, out):
+    """the two declaration sets, with a declaration that either side compares by name only reduced to its head on both"""
+    a, b = decl_tokens(src), decl_tokens(out)
+    weak = {d[:2] for d in a | b if len(d) == 3 and d[2] == "<compared by name only>"}
+    red = lambda S: {(d[:2] + ("<compared by name only>",)) if d[:2] in weak else d for d in S}
+    return red(a), red(b)
 
 
 def run(ctx):
@@ -99,7 +243,14 @@ def run(ctx):
     shutil.rmtree(wd, ignore_errors=True)
     mkdir(wd)
     lab = {}
-    lines = list(HEAD) + ["DERIVE"]
+    # every string literal of the case set also as a CONSTANT initialiser (exppp -c treats those separately)
+    strs = sorted({c["e"]["r"]["v"] for c in cases if c["e"].get("k") == "bin" and c["e"].get("op") == "LIKE" and c["e"]["r"]["k"] == "str"})
+    consts = ["CONSTANT"]
+    for i, v in enumerate(strs):
+        lab["k_%d" % i] = {"src": "'%s'" % v, "e": {"k": "str", "v": v}, "kind": "str"}
+        consts.append("  k_%d : STRING := '%s';" % (i, v))
+    consts.append("END_CONSTANT;")
+    lines = [x for h in HEAD for x in (consts if h == "@@CONSTANTS@@" else [h])] + ["DERIVE"]
     for i, c in enumerate(cases):
         if c["kind"] == "num":
             lab["d_%d" % i] = c
@@ -116,7 +267,8 @@ def run(ctx):
     if p.returncode != 0:
         raise InfraError("the host schema is not accepted by check-express (harness input wrong): %s" % p.stderr[:400])
     nexpr = 0
-    widths = [[], ["-l", "40"]] if ctx.quick else [[], ["-l", "20"], ["-l", "40"], ["-l", "75"], ["-l", "200"], ["-l", "99999"], ["-t"], ["-c"]]
+    widths = [[], ["-l", "40"], ["-c"]] if ctx.quick else [[], ["-l", "10"], ["-l", "20"], ["-l", "40"], ["-l", "75"], ["-l", "200"], ["-l", "99999"], ["-t"], ["-c"],
+                                                              ["-c", "-t"], ["-c", "-l", "20"], ["-t", "-l", "40"], ["-c", "-t", "-l", "99999"]]
     for wi, opts in enumerate(widths):
         tagw = "-".join(opts) or "default"
         rc, err, out = run_exppp(bdir, src, os.path.join(wd, "w%d" % wi), opts)
@@ -152,7 +304,7 @@ def run(ctx):
                               {"case": c, "options": opts, "printed": [t[1] for t in got[name]]})
         # (3) idempotence up to line breaks
         rc2, err2, out2 = run_exppp(bdir, o1, os.path.join(wd, "w%d" % wi, "again"), opts)
-        if out2 is None or [t for t in re.split(r"\s+", out2) if t] != [t for t in re.split(r"\s+", out) if t]:
+        if reprint_verdict(out, out2):
             ctx.violation("not-idempotent|" + tagw, "printing the output of exppp %s again changes more than line breaks (rc %s)" % (tagw, rc2), {"options": opts})
     # whole declarations of the schema family
     fam, g2 = fc.gen(ctx, with_mutants=False)
@@ -169,13 +321,55 @@ def run(ctx):
         if rc != 0 or out is None:
             ctx.violation("exppp-failed|" + key0, "exppp rc=%s on a valid schema: %s" % (rc, err[-200:]), {"input": txt})
             continue
-        a, b = decl_tokens(txt), decl_tokens(out)
+        a, b = decl_diff(txt, out)
         if a != b:
             only_src = sorted(" ".join(x)[:160] for x in a - b)[:2]
             only_out = sorted(" ".join(x)[:160] for x in b - a)[:2]
             ctx.violation("declarations-differ|" + key0, "declarations differ: only in source %s; only in output %s" % (only_src, only_out), {"input": txt, "output": out})
+    # the application-protocol schemas shipped in data/: accepted again, same declarations, stable
+    import glob
+    from vf.common import REPO
+    shipped = sorted(glob.glob(os.path.join(REPO, "data", "*", "*.exp")))
+    if ctx.quick:
+        shipped = [x for x in shipped if "pdm" in x or "ap203.exp" in x]
+    sjobs = [(x, o) for x in shipped for o in ([[]] if ctx.quick else [[], ["-l", "40"], ["-c", "-t"]])]
+
+    def ship(j):
+        path, opts = j
+        tag = os.path.basename(path)[:-4] + "_" + ("-".join(opts) or "default")
+        d = os.path.join(wd, "ship_" + tag.replace("/", "_"))
+        try:
+            rc, err, out = run_exppp(bdir, path, d, opts)
+        except subprocess.TimeoutExpired:
+            return tag, "exppp-failed", "time-out", None
+        if rc != 0 or out is None:
+            return tag, "exppp-failed", "rc=%s %s" % (rc, err[-200:]), None
+        o1 = os.path.join(d, "printed.exp")
+        open(o1, "w").write(out)
+        q = subprocess.run([os.path.join(bdir, "bin", "check-express"), o1], stdout=subprocess.PIPE, stderr=subprocess.PIPE, text=True)
+        if q.returncode != 0:
+            return tag, "output-rejected", q.stderr.strip().split("\n")[0][:200], None
+        a, b = decl_diff(open(path, errors="replace").read(), out)
+        if a != b:
+            return tag, "declarations-differ", "only in source %s; only in output %s" % (
+                sorted(" ".join(x)[:200] for x in a - b)[:1], sorted(" ".join(x)[:200] for x in b - a)[:1]), None
+        rc2, err2, out2 = run_exppp(bdir, o1, os.path.join(d, "again"), opts)
+        v = reprint_verdict(out, out2)
+        if v == "dev":
+            return tag, "dev:Dev_SplitLiteralReparenthesised", "printing the output again adds parentheses around a literal the first printing split", None
+        if v:
+            return tag, "not-idempotent", "printing the output again changes more than line breaks (rc %s)" % rc2, None
+        return tag, "", "", None
+    nship = 0
+    with cf.ThreadPoolExecutor(max_workers=8) as ex:
+        for tag, what, msg, _ in ex.map(ship, sjobs):
+            nship += 1
+            if what.startswith("dev:"):
+                ctx.violation(what, "%s: %s" % (tag, msg), {"schema": tag})
+            elif what:
+                ctx.violation("%s|shipped:%s" % (what, tag), "%s on shipped schema %s: %s" % (what, tag, msg[:400]), {"schema": tag, "detail": msg})
     shutil.rmtree(wd, ignore_errors=True)
-    cov = {"states": g.distinct, "transitions": g.generated, "traces_validated_against_impl": nexpr + nd, "exhaustive": False,
+    cov = {"states": g.distinct, "transitions": g.generated, "traces_validated_against_impl": nexpr + nd + nship, "shipped_schema_runs": nship, "exhaustive": False,
            "expressions": len(cases), "line_length_settings": len(widths), "expression_comparisons": nexpr, "family_schemas": nd,
            "samples": [{"source": cases[5]["src"], "tree": cases[5]["e"]}],
            "evaluations": nexpr + nd, "distinct_nontrivial": len(cases) + nd,
